@@ -1,0 +1,23 @@
+//go:build verif
+
+package pipeline
+
+import (
+	"github.com/ozontech/file.d/pipeline/doif"
+	insaneJSON "github.com/ozontech/insane-json"
+)
+
+// VerifIsMatchC14 runs the unexported processor.isMatch for one action selector on one decoded
+// event (verification harness only; add-only, built with -tags verif).
+func VerifIsMatchC14(conds MatchConditions, mode MatchMode, invert bool, checker *doif.Checker, root *insaneJSON.Root) bool {
+	p := &processor{
+		busyActions: []bool{false},
+		actionInfos: []*ActionPluginStaticInfo{{
+			MatchConditions: conds,
+			MatchMode:       mode,
+			MatchInvert:     invert,
+			DoIfChecker:     checker,
+		}},
+	}
+	return p.isMatch(0, &Event{Root: root})
+}
